@@ -146,6 +146,11 @@ class C01(vlib.Driver):
             for algo in ("DQN", "DDPG"):       # AgentWrapper.clone (RSNorm supports the off-policy single-agent algorithms)
                 add(algo, "vector", False, "partial", 6, rng.randrange(100), wrapper=True)
             cases += custom_cases([("DQN", "vector"), ("DQN", "image")])
+            for algo in ("DQN", "NeuralUCB", "RainbowDQN"):     # extreme magnitudes (1e30, denormal, -0.0, inf, NaN) must be copied bit for bit
+                cases.append({"algo": algo, "family": "vector", "share": False, "netcfg": "partial", "seed": 9, "pop": 2,
+                              "ops": [["learn", 0, 1], ["poke", 0, 1], ["clone", 0, None], ["clone", 2, 8], ["poke", 1, 2],
+                                      ["score", 0, 5], ["score", 1, 9], ["score", 2, 3], ["score", 3, 1], ["select", [1, 0], True],
+                                      ["clone", 0, None], ["poke", 3, 3], ["learn", 2, 4]]})
             # RSNorm over Dict observations (a dict of running statistics); agent ids given in unsorted order
             cases.append({"algo": "DQN", "family": "dict", "share": False, "netcfg": "partial", "seed": 61, "pop": 2, "wrapper": True,
                           "ops": [["learn", 0, 744], ["act", 0, 3], ["clone", 0, None], ["act", 0, 536], ["act", 2, 536, 0],
@@ -241,6 +246,8 @@ class C01(vlib.Driver):
                 if len(op) > 3:
                     rec["pair"] = [op[3], op[1]]
                 rec["action"] = evo.greedy(pop[op[1]], spec, op[2])
+            elif k == "poke":         # extreme but legal magnitudes written into weights and ext tensors
+                evo.poke(pop[op[1]], op[2])
             elif k == "explore":      # get_action in training mode: exploration noise state advances
                 rec["action"] = evo.explore(pop[op[1]], spec, op[2])
             elif k == "reset_noise":  # reset_action_noise([0]): in-place write of the OU-noise state
@@ -253,7 +260,9 @@ class C01(vlib.Driver):
                 pop[op[1]] = evo.apply_mutation(pop[op[1]], op[2], op[3])
                 rec["label"] = evo.unwrap(pop[op[1]]).mut
             elif k == "select":
+                handed = [id(x) for x in pop]
                 newpop, best = evo.apply_select(pop, op[1], elitism=op[2])
+                rec["args_modified"] = handed != [id(x) for x in pop]     # select() must not touch the list it was handed
                 rec["elite"] = best
                 old = pop
                 pop = newpop
@@ -271,6 +280,8 @@ class C01(vlib.Driver):
         out = []
         for ag in evo.snapshot(pop):
             out.append({"slots": [[s[0], s[1], list(s[2]), s[3]] for s in ag["slots"]], "struct": ag["struct"]})
+        for o, ag in zip(out, pop):
+            o["extra"] = evo.extras(ag)
         return out
 
     # ------------------------------------------------------------------ model term
@@ -290,7 +301,7 @@ class C01(vlib.Driver):
         ops = []
         for op, rec, before, after in zip(case["ops"], obs["recs"], obs["states"], obs["states"][1:]):
             k = op[0]
-            if k == "learn":
+            if k in ("learn", "poke"):     # poke: an opaque write of weights / ext tensors of one member
                 st = after[op[1]]["struct"]["opts"]
                 ops.append("Learn {}%nat [{}]".format(op[1], "; ".join(f"({tab.name(o)}, {d['nstate']}%nat)" for o, d in st.items())))
             elif k == "score":
@@ -376,7 +387,7 @@ class C01(vlib.Driver):
                 out.append(Violation("raises", sig("raises", k), f"{what} raised {rec['error']}\n{rec.get('trace', '')[-600:]}"))
                 break
             before, after = states[t], states[t + 1]
-            if k in ("learn", "score", "mutate", "act", "explore", "reset_noise"):
+            if k in ("learn", "score", "mutate", "act", "explore", "reset_noise", "poke"):
                 for j in range(len(before)):
                     if j != op[1] and not unchanged(before[j], after[j], j, what):
                         break
@@ -386,6 +397,8 @@ class C01(vlib.Driver):
                         break
                 self._faithful(out, sig, before[op[1]], after[-1], shared_of, what, op[2])
             elif k == "select":
+                if rec.get("args_modified"):
+                    out.append(Violation("args", sig("select-args", "population"), f"{what}: select() modified the population list it was handed"))
                 for j in range(len(before)):
                     if not unchanged(before[j], rec["old_after"][j], j, what + " (old generation)"):
                         break
@@ -402,6 +415,14 @@ class C01(vlib.Driver):
                     if not unchanged(rest[j], after[j], j, what):
                         break
             shared_ptrs(after, what)
+            gseen = {}
+            for ai, ag in enumerate(after):      # gradient buffers are mutable state too: none may be shared between members
+                for gp in ag.get("extra", {}).get("grads", []):
+                    if gp in gseen and gseen[gp] != ai:
+                        out.append(Violation("shared-state", sig("shared", "grad"),
+                                             f"{what}: a parameter of agent #{ai} and a parameter of agent #{gseen[gp]} hold the same .grad tensor"))
+                        break
+                    gseen.setdefault(gp, ai)
             if len(out) > 8:
                 break
             if k == "act" and rec.get("pair"):
@@ -419,7 +440,7 @@ class C01(vlib.Driver):
                     diff = [(x[0], x[1]) for x, y in zip(ap["slots"], ac["slots"]) if x[3] != y[3]]
                     sp_, sc_ = ap["struct"].get("scalars", {}), ac["struct"].get("scalars", {})
                     diff += [("attr." + k, "scalar") for k in sorted(set(sp_) | set(sc_)) if sp_.get(k) != sc_.get(k)]
-                    lp, lc = recs[t - 1].get("loss"), rec.get("loss")
+                    lp, lc = json.dumps(recs[t - 1].get("loss")), json.dumps(rec.get("loss"))     # (NaN-safe comparison)
                     if diff or lp != lc:
                         out.append(Violation("behaviour", sig("update", diff[0][1] if diff else "loss"),
                                              f"{what}: parent #{p} and its value-identical clone #{c} computed different updates from the same batch: "
@@ -465,6 +486,13 @@ class C01(vlib.Driver):
             if ps["nets"][n]["arch"] != cs["nets"][n]["arch"]:
                 out.append(Violation("faithful", sig("faithful", "arch"), f"{what}: architecture of {n} differs: {ps['nets'][n]['arch']} vs {cs['nets'][n]['arch']}"))
                 return
+        pe, ce = p.get("extra", {}), c.get("extra", {})
+        if pe.get("tree") != ce.get("tree"):
+            d = [n for n in pe.get("tree", {}) if pe["tree"][n] != ce.get("tree", {}).get(n)]
+            out.append(Violation("faithful", sig("faithful", "modules"), f"{what}: the module trees (sub-module names / classes) of {d} differ between parent and clone"))
+        if pe.get("types") != ce.get("types"):
+            d = {k: (v, ce.get("types", {}).get(k)) for k, v in pe.get("types", {}).items() if ce.get("types", {}).get(k) != v}
+            out.append(Violation("faithful", sig("faithful", "type"), f"{what}: attribute types differ (parent, clone): {d}"))
         if ps.get("scalars") != cs.get("scalars"):
             d = {k: (v, cs["scalars"].get(k)) for k, v in ps["scalars"].items() if cs["scalars"].get(k) != v}
             out.append(Violation("faithful", sig("faithful", "scalar"), f"{what}: scalar attributes differ (parent, clone): {d}"))
@@ -546,7 +574,7 @@ class C01(vlib.Driver):
     def _valid(case):
         n = case["pop"]
         for o in case["ops"]:
-            if o[0] in ("learn", "score", "mutate", "clone", "discard", "act", "explore", "reset_noise") and o[1] >= n:
+            if o[0] in ("learn", "score", "mutate", "clone", "discard", "act", "explore", "reset_noise", "poke") and o[1] >= n:
                 return False
             if o[0] in ("learn", "act") and len(o) > 3 and o[3] >= n:
                 return False
